@@ -71,9 +71,9 @@ def adv_cmp(op, a, b):
 
 
 class St:
-    __slots__ = ("ghost", "peeked", "nz", "vals", "nsym", "adv", "since", "ebuf")
+    __slots__ = ("ghost", "peeked", "nz", "vals", "nsym", "adv", "since", "ebuf", "snap")
 
-    def __init__(s, ghost=("SAFE",), peeked=None, nz=None, vals=None, nsym=0, adv=(0, True), since=None, ebuf="U"):
+    def __init__(s, ghost=("SAFE",), peeked=None, nz=None, vals=None, nsym=0, adv=(0, True), since=None, ebuf="U", snap=None):
         s.ghost = ghost
         s.peeked = peeked
         s.nz = dict(nz or {})
@@ -82,9 +82,12 @@ class St:
         s.adv = adv  # net bytes consumed since function entry: (lower bound, exact?)
         s.since = dict(since or {})  # loop header -> lower bound of net advance since its last visit
         s.ebuf = ebuf  # emptiness of the parser's scratch vector: E / N / U
+        # offset snapshots: local -> (lo, hi, delta): the local holds `scanner.ofs as of the snapshot` + delta and the scanner has
+        # moved by a net amount in [lo, hi] since (hi None = unbounded)
+        s.snap = dict(snap or {})
 
     def copy(s):
-        return St(s.ghost, s.peeked, s.nz, s.vals, s.nsym, s.adv, s.since, s.ebuf)
+        return St(s.ghost, s.peeked, s.nz, s.vals, s.nsym, s.adv, s.since, s.ebuf, s.snap)
 
     def move(s, d):
         s.adv = adv_add(s.adv, d)
@@ -92,6 +95,12 @@ class St:
         for h in list(s.since):
             v = s.since[h] + lo
             s.since[h] = max(ADV_BOT, min(2, v))
+        exact = not isinstance(d, tuple) or d[1]
+        for l in list(s.snap):
+            slo, shi, dl = s.snap[l]
+            slo = max(-6, min(6, slo + lo))
+            shi = None if shi is None or not exact or shi + lo > 6 else shi + lo
+            s.snap[l] = (slo, shi, dl)
 
     def norm(s):
         if s.ghost[0] == "PEND":
@@ -118,7 +127,7 @@ class St:
         p = ren(s.peeked)
         items = tuple(sorted((k, ren(v)) for k, v in s.vals.items()))
         nz = tuple(sorted((order[k], v) for k, v in s.nz.items() if k in order))
-        return (g, p, nz, items, s.adv, tuple(sorted(s.since.items())), s.ebuf)
+        return (g, p, nz, items, s.adv, tuple(sorted(s.since.items())), s.ebuf, tuple(sorted(s.snap.items())))
 
     def fresh(s, nz="U"):
         s.nsym += 1
@@ -151,6 +160,38 @@ def _opval(st, op):
         if ty == "bool":
             return ("bool", bool(op["int"]))
         return ("int", op["int"])
+    return None
+
+
+def _is_ofs_place(pl):
+    last = pl["p"][-1] if pl["p"] else None
+    return bool(last) and last["k"] == "field" and last.get("name") == "ofs" and norm(last.get("of", "")) == "scanner::Scanner"
+
+
+def _snap_of_operand(st, op):
+    """(lo, hi, delta) describing an operand as `scanner offset at some earlier moment + delta`, or None"""
+    if op["k"] not in ("copy", "move"):
+        return None
+    pl = op["place"]
+    if not pl["p"]:
+        return st.snap.get(pl["l"])
+    if _is_ofs_place(pl):
+        return (0, 0, 0)
+    # `.0` of a checked-arithmetic pair held in a local
+    if len(pl["p"]) == 1 and pl["p"][0]["k"] == "field" and (pl["p"][0].get("name") or str(pl["p"][0].get("i"))) == "0":
+        return st.snap.get(pl["l"])
+    return None
+
+
+def _snap_of_rvalue(st, rv):
+    if rv["k"] in ("use", "cast"):
+        return _snap_of_operand(st, rv["op"])
+    if rv["k"] == "bin" and rv["op"] in ("Add", "Sub", "AddWithOverflow", "SubWithOverflow"):
+        a, b = rv["a"], rv["b"]
+        sa = _snap_of_operand(st, a)
+        if sa is not None and b["k"] == "const" and b.get("int") is not None:
+            d = b["int"] if rv["op"].startswith("Add") else -b["int"]
+            return (sa[0], sa[1], sa[2] + d)
     return None
 
 
@@ -251,6 +292,7 @@ class Typestate:
         self.sites = 0
         self.site_keys = set()
         self.noadv = collections.OrderedDict()  # (fn, loop ordinal) -> info: a cycle that may not consume input
+        self.slices = collections.OrderedDict()  # site key -> {ok, why}: ordering of the two offsets handed to Scanner::slice
         self.loops_checked = set()
         self._loops = {}
 
@@ -339,9 +381,16 @@ class Typestate:
             for s in blk["stmts"]:
                 if s["k"] == "dead":
                     st.vals.pop(s["l"], None)
+                    st.snap.pop(s["l"], None)
                 elif s["k"] == "assign":
                     rv = s["rv"]
                     val = None
+                    if not s["place"]["p"]:
+                        sn = _snap_of_rvalue(st, rv)
+                        if sn is None:
+                            st.snap.pop(s["place"]["l"], None)
+                        else:
+                            st.snap[s["place"]["l"]] = sn
                     if rv["k"] == "use":
                         val = _opval(st, rv["op"])
                     elif rv["k"] == "bin":
@@ -489,6 +538,8 @@ class Typestate:
             _set(s2, dest, None)
             go(tgt, s2)
         elif callee in NOOPS:
+            if callee == "scanner::Scanner::slice" and len(t["args"]) == 3:
+                self._slice_check(body, bb, st, t)
             s2 = st.copy()
             _set(s2, dest, ("res", "Err") if callee in ALWAYS_ERR else None)
             go(tgt, s2)
@@ -533,6 +584,30 @@ class Typestate:
             s2 = st.copy()
             _set(s2, dest, None)
             go(tgt, s2)
+
+    def _slice_check(self, body, bb, st, t):
+        """Scanner::slice(start, end) slices unchecked: on this path start <= end must follow from how the two offsets were obtained"""
+        a, b = t["args"][1], t["args"][2]
+        key = self._site_key(body, bb, "scanner::Scanner::slice")
+        verdict = None
+        if a["k"] == "const" and b["k"] == "const" and a.get("int") is not None and b.get("int") is not None:
+            verdict = a["int"] <= b["int"]
+            why = "constants %d..%d" % (a["int"], b["int"])
+        else:
+            sa, sb = _snap_of_operand(st, a), _snap_of_operand(st, b)
+            if sa is None or sb is None:
+                verdict, why = False, "an offset of unknown origin (start %s, end %s)" % ("known" if sa else "unknown", "known" if sb else "unknown")
+            elif sb[1] is None:
+                verdict, why = False, "the end offset is an old snapshot with unbounded movement since"
+            else:
+                # position relative to now: start <= delta_a - lo_a ; end >= delta_b - hi_b
+                verdict = (sa[2] - sa[0]) <= (sb[2] - sb[1])
+                why = "start <= now%+d, end >= now%+d" % (sa[2] - sa[0], sb[2] - sb[1])
+        rec = self.slices.setdefault(key, dict(key=key, fn=body.nname, ok=True, why=[], loc=t["loc"]))
+        if not verdict:
+            rec["ok"] = False
+        if why not in rec["why"]:
+            rec["why"].append(why)
 
     def _is_scratch(self, body, bb, t):
         """receiver is `&[mut] (*self).eval_buf` built in this block"""
